@@ -47,6 +47,14 @@ func (c10) Describe() engine.Info {
 func (c10) Generate(r *engine.Rand, index int, tier string) *engine.Scenario {
 	sc := &engine.Scenario{}
 	sc.Cart = engine.CartSpec{Kind: "mbc3", Type: 0x10, RomCode: 1, RamCode: 3, Program: "18fe", FillSeed: r.U64()}
+	if r.Chance(1, 2) {
+		// every cartridge with the clock: with and without RAM, every declared RAM size, several ROM sizes
+		sc.Cart.RamCode = engine.Pick(r, []uint8{0, 1, 2, 4, 5})
+		sc.Cart.RomCode = uint8(r.Intn(5))
+		if sc.Cart.RamCode == 0 {
+			sc.Cart.Type = 0x0f
+		}
+	}
 	if index%6 == 5 {
 		sc.Class = "step"
 		sc.SetP("seed", int64(r.U64()>>1))
